@@ -1464,7 +1464,179 @@ macro_rules! ws_api_cases {
     }};
 }
 
+
+// =====================================================================================================================
+// C10: the variable-time public-data routines against the plain constant-time operations
+// =====================================================================================================================
+trait Fast: Grp {
+    /// log2 of the cofactor that verify_helper_vartime multiplies the equation by (0 when it tests equality of group elements)
+    const COF_LOG2: u32;
+    fn mamg(self, u: &Self::S, v: &Self::S) -> Self;
+    fn helper(self, _r: &Self, _s: &Self::S, _k: &Self::S) -> Option<bool> { None }
+    fn m128(self, _u: u128, _v: &Self::S) -> Option<Self> { None }
+    fn m64mu(self, _u0: u64, _u1: u64, _v: &Self::S) -> Option<Self> { None }
+    fn sc_u128(x: u128) -> Self::S;
+}
+macro_rules! impl_fast {
+    ($m:ident, $cof:expr, { $($extra:tt)* }) => {
+        impl Fast for crrl::$m::Point {
+            const COF_LOG2: u32 = $cof;
+            fn mamg(self, u: &Self::S, v: &Self::S) -> Self { self.mul_add_mulgen_vartime(u, v) }
+            fn sc_u128(x: u128) -> Self::S { crrl::$m::Scalar::from_u128(x) }
+            $($extra)*
+        }
+    };
+}
+macro_rules! fast_helper { () => { fn helper(self, r: &Self, s: &Self::S, k: &Self::S) -> Option<bool> { Some(self.verify_helper_vartime(r, s, k)) } }; }
+macro_rules! fast_m128 { () => { fn m128(self, u: u128, v: &Self::S) -> Option<Self> { Some(self.mul128_add_mulgen_vartime(u, v)) } }; }
+impl_fast!(ed25519, 3, { fast_helper!(); });
+impl_fast!(ed448, 2, { fast_helper!(); });
+impl_fast!(p256, 0, { fast_helper!(); });
+impl_fast!(secp256k1, 0, { fast_helper!(); });
+impl_fast!(ristretto255, 0, { fast_helper!(); });
+impl_fast!(decaf448, 0, { fast_helper!(); });
+impl_fast!(jq255e, 0, { fast_m128!(); });
+impl_fast!(jq255s, 0, { fast_m128!(); });
+impl_fast!(gls254, 0, { fn m64mu(self, u0: u64, u1: u64, v: &Self::S) -> Option<Self> { Some(self.mul64mu_add_mulgen_vartime(u0, u1, v)) } });
+
+/// integers whose halves / low words are all-zero or all-one: what the negation and carry code of the split multipliers sees
+fn frac_parts() -> Vec<BigInt> {
+    let mut v: Vec<BigInt> = Vec::new();
+    for j in [0usize, 1, 2, 31, 32, 63, 64, 65, 96, 112, 120, 126, 127, 128, 129, 130, 160, 191, 192, 193, 200, 222, 223, 224] {
+        let p = pow2(j as u32);
+        v.push(p.clone()); v.push(-p.clone()); v.push(&p + bi(1)); v.push(-(&p + bi(1))); v.push(&p - bi(1)); v.push(-(&p - bi(1)));
+    }
+    for t in [3i64, 5, 0x1_0000_0001] { for j in [64usize, 128, 192] { v.push(bi(t) * pow2(j as u32)); v.push(-(bi(t) * pow2(j as u32))); } }
+    v.push(pow2(128) + pow2(64)); v.push(-(pow2(128) + pow2(64))); v.push(pow2(192) + pow2(128)); v.push(-(pow2(192) + pow2(128)));
+    v.retain(|x| *x != bi(0));
+    v
+}
+fn modinv(a: &BigInt, n: &BigInt) -> BigInt { emod(a, n).modpow(&(n - bi(2)), n) }
+/// scalars k = c0/c1 mod n with c0, c1 taken from frac_parts (the rational reconstruction of k returns such pairs)
+fn frac_specials<G: Grp>() -> Vec<Vec<u8>> {
+    let n = G::order();
+    let parts = frac_parts();
+    let mut out: Vec<Vec<u8>> = sc_specials::<G>();
+    let small: Vec<BigInt> = vec![bi(1), bi(-1), bi(2), bi(-3), pow2(64), -pow2(64), pow2(127), -pow2(128)];
+    for c1 in parts.iter() {
+        if emod(c1, n) == bi(0) { continue; }
+        let i1 = modinv(c1, n);
+        for c0 in small.iter() { out.push(int_to_le_trunc(&emod(&(c0 * &i1), n), G::SLEN)); }
+    }
+    for c0 in parts.iter() { for c1 in small.iter() { out.push(int_to_le_trunc(&emod(&(c0 * modinv(c1, n)), n), G::SLEN)); } }
+    out
+}
+fn frac_random<G: Grp>(r: &mut Rng) -> Vec<u8> {
+    if r.below(3) == 0 { return sc_random::<G>(r); }
+    let n = G::order();
+    let parts = frac_parts();
+    let pick = |r: &mut Rng| -> BigInt {
+        match r.below(3) {
+            0 => parts[r.below(parts.len() as u64) as usize].clone(),
+            1 => { let x = structured_int(r, 200); if r.below(2) == 0 { x } else { -x } }
+            _ => { let hi = structured_int(r, 90); let j = [64u32, 128, 192][r.below(3) as usize]; let x = hi * pow2(j); if r.below(2) == 0 { x } else { -x } }
+        }
+    };
+    let (c0, mut c1) = (pick(r), pick(r));
+    if emod(&c1, n) == bi(0) { c1 = bi(1); }
+    int_to_le_trunc(&emod(&(c0 * modinv(&c1, n)), n), G::SLEN)
+}
+fn frac_op<G: Grp>() -> Op { Op::Custom { len: Some(G::SLEN), specials: frac_specials::<G>, random: frac_random::<G> } }
+
+fn c_mul_add_mulgen_vartime<G: Fast>(inp: &[u8]) -> Result<(), String> {
+    let n = 1 + G::PLEN;
+    if inp.len() != n + 2 * G::SLEN { return Ok(()); }
+    let P = build::<G>(&inp[..n], false)?;
+    let u = G::sc(&inp[n..n + G::SLEN]);
+    let v = G::sc(&inp[n + G::SLEN..]);
+    let got = P.mamg(&u, &v);
+    same(got, P.mul(&u).add(G::mulgen(&v)), "mul_add_mulgen_vartime(u, v) vs P*u + mulgen(v)")?;
+    valid(got, "mul_add_mulgen_vartime")
+}
+fn c_verify_helper_vartime<G: Fast>(inp: &[u8]) -> Result<(), String> {
+    let n = 1 + G::PLEN;
+    if inp.len() != n + 2 * G::SLEN + 2 { return Ok(()); }
+    // with a cofactored test the public key and R may carry torsion
+    let A = build::<G>(&inp[..n], G::COF_LOG2 > 0)?;
+    let k = G::sc(&inp[n..n + G::SLEN]);
+    let s = G::sc(&inp[n + G::SLEN..n + 2 * G::SLEN]);
+    let delta = inp[n + 2 * G::SLEN] % 4;
+    let tsel = inp[n + 2 * G::SLEN + 1] as usize;
+    // R = s*B - k*A + delta*B (+ a torsion point when the test is cofactored): the equation holds iff delta == 0
+    let mut R = G::mulgen(&s).sub(A.mul(&k)).add(G::base().mulk(delta as u64));
+    if G::COF_LOG2 > 0 && tsel % 3 == 1 { if let Some(t) = torsion_pt::<G>(tsel / 3) { R = R.add(t); } }
+    let got = match A.helper(&R, &s, &k) { Some(x) => x, None => return Ok(()) };
+    // reference with the plain operations
+    let t = G::mulgen(&s).sub(R).sub(A.mul(&k)).xdbl(G::COF_LOG2);
+    let want = t.isneutral_raw() == T;
+    if want != (delta == 0) { return Err(format!("reference inconsistent: delta={} want={}", delta, want)); }
+    if got != want { return Err(format!("verify_helper_vartime returned {} but [2^{}](s*B - R - k*A) is {}the neutral (k = {}, s = {})", got, G::COF_LOG2, if want { "" } else { "not " }, hex(&G::sc_enc(&k)), hex(&G::sc_enc(&s)))); }
+    Ok(())
+}
+fn u128_specials() -> Vec<Vec<u8>> {
+    let mut v: Vec<u128> = vec![0, 1, 2, 3, 15, 16, 17, 31, 32, 33, u128::MAX, u128::MAX - 1, 1 << 127, (1 << 127) - 1, (1 << 127) + 1, 1 << 64, (1 << 64) - 1, (1 << 64) + 1,
+        0xAAAA_AAAA_AAAA_AAAA_AAAA_AAAA_AAAA_AAAA, 0x5555_5555_5555_5555_5555_5555_5555_5555, 0xFFFF_FFFF_FFFF_FFFF_0000_0000_0000_0000, 0x8000_0000_0000_0000_8000_0000_0000_0000];
+    for j in [5u32, 60, 63, 65, 100, 120, 124, 125, 126] { v.push(1u128 << j); v.push((1u128 << j) - 1); v.push(u128::MAX - ((1u128 << j) - 1)); v.push(u128::MAX << j); }
+    v.iter().map(|x| x.to_le_bytes().to_vec()).collect()
+}
+fn u128_random(r: &mut Rng) -> Vec<u8> {
+    let x = le_to_int(&int_to_le_trunc(&structured_int(r, 128), 16));
+    let mut b = int_to_le_trunc(&x, 16);
+    if r.below(4) == 0 { for i in 8..16 { b[i] = 0xFF; } }
+    if r.below(6) == 0 { for i in 0..8 { b[i] = 0; } }
+    b
+}
+fn u128_op() -> Op { Op::Custom { len: Some(16), specials: u128_specials, random: u128_random } }
+fn c_mul128_add_mulgen_vartime<G: Fast>(inp: &[u8]) -> Result<(), String> {
+    let n = 1 + G::PLEN;
+    if inp.len() != n + 16 + G::SLEN { return Ok(()); }
+    let P = build::<G>(&inp[..n], false)?;
+    let mut ub = [0u8; 16]; ub.copy_from_slice(&inp[n..n + 16]);
+    let u = u128::from_le_bytes(ub);
+    let v = G::sc(&inp[n + 16..]);
+    if let Some(got) = P.m128(u, &v) {
+        same(got, P.mul(&G::sc_u128(u)).add(G::mulgen(&v)), "mul128_add_mulgen_vartime(u, v) vs P*u + mulgen(v)")?;
+        valid(got, "mul128_add_mulgen_vartime")?;
+    }
+    if let Some(got) = P.m64mu(u as u64, (u >> 64) as u64, &v) {
+        // mu*P is taken from the routine itself (u0 = 0, u1 = 1, v = 0); the statement checked is linearity in (u0, u1, v)
+        let z = G::sc_u128(0);
+        let muP = P.m64mu(0, 1, &z).unwrap();
+        let want = P.mul(&G::sc_u128((u as u64) as u128)).add(muP.mul(&G::sc_u128(u >> 64))).add(G::mulgen(&v));
+        same(got, want, "mul64mu_add_mulgen_vartime(u0, u1, v) vs u0*P + u1*(mu*P) + mulgen(v)")?;
+        // mu is an eigenvalue of order 4: mu*(mu*P) == -P
+        same(muP.m64mu(0, 1, &z).unwrap(), P.neg(), "mu*(mu*P) vs -P")?;
+        valid(got, "mul64mu_add_mulgen_vartime")?;
+    }
+    Ok(())
+}
+fn reg_fast<G: Fast>(v: &mut Vec<Case>) {
+    let c = G::NAME;
+    v.push(Case { id: format!("{}_mul_add_mulgen_vartime", c), describe: "C10: P.mul_add_mulgen_vartime(u, v) == P*u + mulgen(v) (plain constant-time operations), result a valid point. Input: point recipe | u | v",
+        ops: vec![pt_op::<G>(), frac_op::<G>(), sc_op::<G>()], run: Box::new(|i: &[u8]| c_mul_add_mulgen_vartime::<G>(i)) });
+    if G::base().helper(&G::base(), &G::sc_u64(1), &G::sc_u64(0)).is_some() {
+        v.push(Case { id: format!("{}_verify_helper_vartime", c), describe: "C10: A.verify_helper_vartime(R, s, k) == ([cofactor](s*B - R - k*A) is the neutral) for R = s*B - k*A + delta*B (+ torsion where cofactored); k includes fractions c0/c1 whose parts have all-zero / all-one words. Input: A recipe | k | s | delta | torsion selector",
+            ops: vec![pt_op::<G>(), frac_op::<G>(), sc_op::<G>(), Op::Custom { len: Some(1), specials: || (0u8..4).map(|x| vec![x]).collect(), random: |r: &mut Rng| vec![if r.below(2) == 0 { 0 } else { r.below(4) as u8 }] },
+                      Op::Custom { len: Some(1), specials: || (0u8..12).map(|x| vec![x]).collect(), random: |r: &mut Rng| vec![r.below(256) as u8] }],
+            run: Box::new(|i: &[u8]| c_verify_helper_vartime::<G>(i)) });
+    }
+    let z = G::sc_u64(0);
+    if G::base().m128(1, &z).is_some() || G::base().m64mu(1, 0, &z).is_some() {
+        v.push(Case { id: format!("{}_mul128_add_mulgen_vartime", c), describe: "C10: the 128-bit multiplier fast path (mul128_add_mulgen_vartime, resp. mul64mu_add_mulgen_vartime with u = u0 + u1*2^64 split in two halves) == the plain operations. Input: point recipe | u (16 bytes LE) | v",
+            ops: vec![pt_op::<G>(), u128_op(), sc_op::<G>()], run: Box::new(|i: &[u8]| c_mul128_add_mulgen_vartime::<G>(i)) });
+    }
+}
+
 pub fn register(v: &mut Vec<Case>) {
+    reg_fast::<crrl::ed25519::Point>(v);
+    reg_fast::<crrl::ed448::Point>(v);
+    reg_fast::<crrl::p256::Point>(v);
+    reg_fast::<crrl::secp256k1::Point>(v);
+    reg_fast::<crrl::jq255e::Point>(v);
+    reg_fast::<crrl::jq255s::Point>(v);
+    reg_fast::<crrl::gls254::Point>(v);
+    reg_fast::<crrl::ristretto255::Point>(v);
+    reg_fast::<crrl::decaf448::Point>(v);
     ws_api_cases!(v, p256, crrl::field::GFp256, WsRef::p256(), 1);
     ws_api_cases!(v, secp256k1, crrl::field::GFsecp256k1, WsRef::secp256k1(), 0);
     reg_relational::<crrl::ed25519::Point>(v);
